@@ -387,6 +387,23 @@ fn check_load(m: &Machine, c: &Case, edges: usize) -> Result<u64, (String, Strin
     if k.stacksize() != before.stacksize() || k.programsize() != before.programsize() {
         return f("noset-limits", format!("NOSET program changed the limits from {:?}/{:?} to {:?}/{:?}", before.stacksize(), before.programsize(), k.stacksize(), k.programsize()));
     }
+    // the same program loaded once more on top of itself, with the outside world changed in between
+    // (no clock edge): every load is a master reset, whatever was loaded before
+    {
+        let bc = bytecode(&image, c.follow_stack, pk, n);
+        let mut b2 = a.clone();
+        for i in 0..4u8 {
+            set_input(&mut b2, i, c.follow_inputs[i as usize] | 1);
+        }
+        b2.raw_mut().bus_mut().write(0xFE, 0x5A);
+        b2.raw_mut().bus_mut().write(0xF9, 0x01);
+        // (no key press here: the interrupt status register survives every reset)
+        b2.load(bc);
+        if *b2 != *a || b2.step_mode() != a.step_mode() {
+            let what = if (0xFCu8..=0xFF).any(|ad| b2.bus().read(ad) != 0) { "input registers" } else { "machine state" };
+            return f("second-load-of-the-same-program", format!("loading the same program again (after input changes and port writes, no clock edge) does not give the freshly loaded state: {} differ", what));
+        }
+    }
     // the two limits are independent: an explicit stack size with a NOSET program size, and the other way round
     let mut k = m.clone();
     k.load(bytecode(&image, c.follow_stack, 2, 0));
